@@ -540,3 +540,107 @@ _old_cli_tasks2 = cli_tasks
 
 def cli_tasks(root, timeout_ms=10000):      # noqa: F811
     return _old_cli_tasks2(root, timeout_ms) + [CliTask(root, "main", timeout_ms)]
+
+
+# ---------------------------------------------------------------------------------------------------
+# cli.parse_args: the repository's own post-processing of argparse's result
+
+class _ArgsDict:
+    """vars(parser.parse_args(...)): `output` is "plain" or "pretty" (argparse choices), `error_format` is None or a string"""
+
+
+def parse_args_task_run(self, res):
+    """parse_args: an --error-format given by the user is kept as it is (also the empty string); the default template is
+    filled in exactly when none was given and the output is plain; a non-empty --error-format with --output pretty is a
+    usage error; nothing else of argparse's result is touched"""
+    repo = extract.Repo(self.root)
+    unit = repo.unit("cli:parse_args")
+    res["function"], res["source_hash"] = unit.key, unit.source_hash()
+    ctx = Ctx(repo, contracts={}, config={})
+    out_ = SV(z3.Const("arg_output", V))
+    ef = SV(z3.Const("arg_error_format", V))
+    d = _ArgsDict()
+
+    def builtin_hook(I, st, name, a, k, node):
+        if name == "vars":
+            return [(st, d)]
+        return None
+
+    def global_hook(m, name):
+        if m == "cli" and name == "parser":
+            return Opaque("parser", [])
+        return None
+
+    def method_hook(I, st, obj, name, a, k, node):
+        if isinstance(obj, Opaque) and obj.tag == "parser":
+            if name == "parse_args":
+                return [(st, Opaque("namespace", []))]
+            if name == "error":
+                return [(st, Raised(ExcVal("SystemExit", {"code": lift(2)}, origin="parser.error")))]      # argparse: prints usage, exits 2
+        return None
+
+    def getattr_hook(I, st, obj, attr):
+        if isinstance(obj, Opaque) and obj.tag == "parser":
+            return [(st, BoundMethod(obj, attr))]
+        return None
+
+    def subscript_hook(I, st, obj, key):
+        if isinstance(obj, _ArgsDict) and isinstance(key, SV) and key.known:
+            cur = st.ghost.get("args_set", {}).get(key.conc)
+            if cur is not None:
+                return [(st, cur)]
+            if key.conc == "output":
+                return [(st, out_)]
+            if key.conc == "error_format":
+                return [(st, ef)]
+        return None
+
+    def setitem_hook(I, st, obj, k, v):
+        if isinstance(obj, _ArgsDict) and isinstance(k, SV) and k.known:
+            s = st.fork()
+            a = dict(s.ghost.get("args_set", {}))
+            a[k.conc] = v
+            s.ghost["args_set"] = a
+            return [(s, ("next", None))]
+        return None
+    ctx.config.update(builtin_hook=builtin_hook, global_hook=global_hook, method_hook=method_hook, getattr_hook=getattr_hook,
+                      subscript_hook=subscript_hook, setitem_hook=setitem_hook)
+    I = Interp(ctx)
+    st = State()
+    st.unit = unit
+    plain = z3.And(kind(out_.t) == K_STR, smt.sval(out_.t) == z3.StringVal("plain"))
+    pretty = z3.And(kind(out_.t) == K_STR, smt.sval(out_.t) == z3.StringVal("pretty"))
+    none = kind(ef.t) == smt.K_NONE
+    st.pc.extend([z3.Or(plain, pretty), z3.Or(none, kind(ef.t) == K_STR)])
+    outs = I.run_unit(unit, st, [SV(z3.Const("argv", V))], {})
+    res["paths"] = len(outs)
+    obls = list(ctx.obligations)
+    nonempty = z3.And(kind(ef.t) == K_STR, z3.Length(smt.sval(ef.t)) > 0)
+    for n, (s, ctl) in enumerate(outs):
+        nm = "%s/F/%d" % (self.name, n + 1)
+        if ctl[0] == "raise":
+            ok = ctl[1].cls == "SystemExit"
+            obls.append(core.Obligation(nm + ".usage-error", "F", s.pc, z3.And(z3.BoolVal(bool(ok)), pretty, nonempty),
+                                        note="a usage error exactly for a non-empty --error-format with --output pretty"))
+            continue
+        sets = s.ghost.get("args_set", {})
+        ok_ret = ctl[1] is d and set(sets) <= {"error_format"}
+        obls.append(core.Obligation(nm + ".returns-arguments", "F", s.pc, z3.And(z3.BoolVal(bool(ok_ret)), z3.Not(z3.And(pretty, nonempty))),
+                                    note="returns argparse's dictionary, touching at most error_format; not for a non-empty format with pretty output"))
+        if "error_format" in sets:
+            v = sets["error_format"]
+            isdef = isinstance(v, SV) and v.known and isinstance(v.conc, str) and "{error.message}" in v.conc
+            obls.append(core.Obligation(nm + ".default-format", "F", s.pc, z3.And(z3.BoolVal(bool(isdef)), plain, none),
+                                        note="the default template is filled in only when no --error-format was given and the output is plain"))
+        else:
+            obls.append(core.Obligation(nm + ".format-kept", "F", s.pc, z3.Not(z3.And(plain, none)),
+                                        note="a given --error-format (the empty string included) is kept; it stays None only for pretty output"))
+    self.finish(res, ctx, obls)
+
+
+CliTask._run_parse_args = parse_args_task_run
+_old_cli_tasks3 = cli_tasks
+
+
+def cli_tasks(root, timeout_ms=10000):      # noqa: F811
+    return _old_cli_tasks3(root, timeout_ms) + [CliTask(root, "parse_args", timeout_ms)]
